@@ -34,6 +34,7 @@ type ConstFuncParamAnnotator struct {
 var (
 	_ ast.Annotator          = (*ConstFuncParamAnnotator)(nil)
 	_ ast.FuncDeclVisitor    = (*ConstFuncParamAnnotator)(nil)
+	_ ast.FuncDefVisitor     = (*ConstFuncParamAnnotator)(nil)
 	_ ast.FuncCallVisitor    = (*ConstFuncParamAnnotator)(nil)
 	_ ast.AssignStmtVisitor  = (*ConstFuncParamAnnotator)(nil)
 	_ ast.ConditionalVisitor = (*ConstFuncParamAnnotator)(nil)
@@ -41,7 +42,7 @@ var (
 
 func (a *ConstFuncParamAnnotator) ShouldVisit(node ast.Node) bool {
 	switch node.(type) {
-	case *ast.FuncDecl, *ast.DeclStmt:
+	case *ast.FuncDecl, *ast.FuncDef, *ast.DeclStmt:
 		return true
 	default:
 		return a.currentDecl != nil
@@ -93,6 +94,31 @@ func (a *ConstFuncParamAnnotator) VisitFuncDecl(decl *ast.FuncDecl) ast.VisitRes
 	}
 	a.CurrentModule.Ast.AddAttachement(decl, attachement)
 	a.currentDecl = decl
+
+	return ast.VisitRecurse
+}
+
+// the definition of a forward declared function: its body decides about the parameters of the declaration
+func (a *ConstFuncParamAnnotator) VisitFuncDef(def *ast.FuncDef) ast.VisitResult {
+	a.currentDecl = nil
+	if def.Func == nil || def.Body == nil {
+		return ast.VisitSkipChildren
+	}
+
+	attachement, ok := a.CurrentModule.Ast.GetMetadataByKind(def.Func, ConstFuncParamMetaKind)
+	if !ok {
+		return ast.VisitSkipChildren
+	}
+	isConst := attachement.(ConstFuncParamMeta).IsConst
+
+	a.currentParams = make(map[*ast.VarDecl]bool, len(def.Func.Parameters))
+	for _, funcParam := range def.Func.Parameters {
+		param, exists, isVar := def.Body.Symbols.LookupDecl(funcParam.Name.Literal)
+		if exists && isVar {
+			a.currentParams[param.(*ast.VarDecl)] = isConst[funcParam.Name.Literal]
+		}
+	}
+	a.currentDecl = def.Func
 
 	return ast.VisitRecurse
 }
